@@ -18,15 +18,24 @@ def sh(cmd, **kw):
 dirty = sh("git -C %s status --porcelain --untracked-files=no" % REPO).stdout.strip()
 if dirty:
     print("refusing: /repo has uncommitted changes:\n" + dirty); sys.exit(2)
+import shutil
+bak = os.path.join(HERE, ".work", "evidence.bak")
+shutil.rmtree(bak, ignore_errors=True); os.makedirs(os.path.dirname(bak), exist_ok=True)
+shutil.copytree(os.path.join(HERE, "evidence"), bak)      # runs on a mutated tree must not leave their evidence behind
 resp = os.path.join(sd, "RESULTS.json")
 results = json.load(open(resp)) if os.path.exists(resp) else {}
 for sid in ids:
     d = os.path.join(sd, sid)
     meta = json.load(open(os.path.join(d, "meta.json")))
     props = meta["property"] if isinstance(meta["property"], list) else [meta["property"]]
-    r = sh("git -C %s apply --check %s && git -C %s apply %s" % (REPO, os.path.join(d, "patch.diff"), REPO, os.path.join(d, "patch.diff")))
+    pf = os.path.join(d, "patch.rebased.diff")       # the same change re-expressed on the current tree (after fix: commits)
+    if not os.path.exists(pf):
+        pf = os.path.join(d, "patch.diff")
+    r = sh("git -C %s apply -3 %s" % (REPO, pf))
+    sh("git -C %s reset -q" % REPO)        # -3 stages the result; keep it in the working tree only
     if r.returncode != 0:
-        print(sid, "PATCH DOES NOT APPLY:", r.stdout[-300:]); results[sid] = {"applies": False}; continue
+        sh("git -C %s checkout -q HEAD -- ." % REPO)
+        print(sid, "PATCH DOES NOT APPLY:", r.stdout[-200:].replace("\n", " ")); results[sid] = {"applies": False}; continue
     try:
         row = {"applies": True, "tier": tier, "runs": []}
         for pid in props:
@@ -40,5 +49,6 @@ for sid in ids:
         row["caught"] = any(x["exit"] == 1 and x["violations"] for x in row["runs"])
         results[sid] = row
     finally:
-        sh("git -C %s checkout -- ." % REPO)
+        sh("git -C %s checkout -q HEAD -- ." % REPO)
 json.dump(results, open(resp, "w"), indent=1, sort_keys=True)
+shutil.rmtree(os.path.join(HERE, "evidence")); shutil.copytree(bak, os.path.join(HERE, "evidence"))
